@@ -484,6 +484,13 @@ pub fn replay(steps: &Value, sock_dir: &str, out: &mut dyn Write) {
             break;
         }
         let mut s = st.clone();
+        if s["e"] == "poll" && s.get("mid").is_none() {
+            // a recorded step (violation replay): the client actions performed inside the call are in its hook list
+            let mids: Vec<Value> = s["hooks"].as_array().map(|a| a.iter().filter(|h| h["h"] == "mid").cloned().collect()).unwrap_or_default();
+            if !mids.is_empty() {
+                s["mid"] = json!(mids);
+            }
+        }
         if s["e"] == "respond" {
             // the recorded step names the request by tag; find its index among held ones
             let tag = obs::from_bytes(&s["tag"]);
